@@ -441,6 +441,15 @@ func c14Gen(r *rand.Rand, tier string) any {
 			op := opSpec{Op: "build", Label: pickLabel(r, shadow)}
 			// watch mode: the project of the previous build is reloaded, not loaded afresh
 			op.Reload = r.IntN(3) == 0
+			if r.IntN(6) == 0 {
+				// a long-lived process collects as soon as a build has returned - here a build
+				// in which one dependency fails while its sibling is still busy
+				if tl, xl, _ := shapeOverlap(r, shadow, sc.Spec); tl != "" {
+					sc.Ops = append(sc.Ops, opSpec{Op: "build", Label: tl, Fail: []string{xl}, Always: true, GCAfter: true})
+					seenGC = true
+					continue
+				}
+			}
 			if r.IntN(4) == 0 && !seenGC {
 				// an interrupted build leaves temporaries behind. Only before the first
 				// collection: a crash is placed by step count, and the two twin histories take
@@ -657,6 +666,7 @@ func c14Exec(scAny any, c *simcheck.Ctx) *simcheck.Violation {
 	// both histories then consist of the same processes, apart from the collection itself
 	twin := sc.clone()
 	for i := range twin.Ops {
+		twin.Ops[i].GCAfter = false
 		if twin.Ops[i].Op == "gc" {
 			twin.Ops[i].Op = "load-only"
 		}
